@@ -1015,6 +1015,16 @@ func selectReverseStrategy(n *nfa.NFA, re *syntax.Regexp, literals *literal.Seq,
 		}
 	}
 
+	// The remaining reverse strategies (ReverseSuffix, ReverseSuffixSet, ReverseInner)
+	// locate the match start with a reverse DFA built by nfa.Reverse, which turns every
+	// look-around assertion into a plain epsilon transition. Word boundaries were
+	// rejected above; the same holds for ^, $, \A, \z and their multiline variants
+	// (e.g. `$[a-z]+|abc` or `(?:x|^)[a-z]+\.txt`): the assertion would be dropped and
+	// the reported match start would be wrong.
+	if hasAnchorAssertions(re) {
+		return 0
+	}
+
 	// Check if prefix literals would produce a fast forward prefilter.
 	// If so, skip reverse optimizations (the overhead is not worth it).
 	//
@@ -1389,7 +1399,13 @@ func SelectStrategy(n *nfa.NFA, re *syntax.Regexp, literals *literal.Seq, config
 	isEndAnchored := re != nil && nfa.IsPatternEndAnchored(re)
 	hasStartAnchor := re != nil && nfa.IsPatternStartAnchored(re)
 
-	if re != nil && config.EnableDFA && isEndAnchored && !isStartAnchored && !hasStartAnchor {
+	// The reverse NFA drops look-around assertions. For the trailing $ / \z this is
+	// compensated by starting the reverse scan at the end of the haystack, and start
+	// anchors are excluded above. Word boundaries (\b, \B) cannot be compensated, so
+	// patterns like `\b.*-a$` must not use the reverse search.
+	hasWordAssertion := re != nil && hasWordBoundary(re)
+
+	if re != nil && config.EnableDFA && isEndAnchored && !isStartAnchored && !hasStartAnchor && !hasWordAssertion {
 		// Perfect candidate for reverse search
 		// Example: "pattern.*suffix$" on large haystack
 		// Forward: O(n*m) tries, Reverse: O(m) one try
